@@ -1068,6 +1068,9 @@ func (t *State) updateLatestBlockid(newBlockid []byte, batch kvdb.Batch, reason 
 		return writeErr
 	}
 	t.latestBlockid = newBlockid
+	// the per-batch version cache of xmodel is only valid while this block's batch is being
+	// built; pool admissions after the block must read the stored versions again
+	t.xmodel.CleanCache()
 	t.heightNotifier.UpdateHeight(blk.GetHeight())
 	return nil
 }
